@@ -18,12 +18,12 @@ fn space_for(tier: Tier) -> (Space, usize) {
     let mut s = Space::new();
     match tier {
         Tier::Quick => {
-            s.ast("AN", 5, 64).ast("ANU", 3, 64).ast("ANQ", 4, 64).ast("ANI", 3, 64);
+            s.ast("AN", 5, 64).ast("ANU", 3, 64).ast("ANQ", 4, 64).ast("ANI", 3, 64).ast("ALTM", 4, 64);
             s.list("flag strings", 1, 1);
             (s, 4)
         }
         Tier::Thorough => {
-            s.ast("AN", 5, 64).ast("ANU", 4, 64).ast("ANQ", 4, 64).ast("ANI", 4, 64);
+            s.ast("AN", 5, 64).ast("ANU", 4, 64).ast("ANQ", 4, 64).ast("ANI", 4, 64).ast("ALTM", 4, 64);
             s.list("flag strings", 1, 1);
             (s, 5)
         }
@@ -58,6 +58,33 @@ impl Check for C12 {
         let scope_name = space::seg_scope_name(seg);
         if let space::SegKind::List { .. } = seg.kind {
             let n = common::flag_effect(out, "C12", 'm') + common::flag_effect(out, "C12", 's');
+            // the dot against every scalar value: without s exactly U+000A and U+000D are left
+            // behind, with s nothing, in both dialects and inside a group / under a quantifier
+            let hay: String = (0u32..0x110000).filter_map(char::from_u32).collect();
+            for (pat, flags, xsd, want) in [
+                (".", "", false, "\n\r"),
+                (".", "s", false, ""),
+                (".", "m", false, "\n\r"),
+                (".", "", true, "\n\r"),
+                (".", "s", true, ""),
+                ("(.)", "", false, "\n\r"),
+                (".+", "", false, "\n\r"),
+                (".+", "s", false, ""),
+                ("(?:.|a)", "i", false, "\n\r"),
+            ] {
+                out.add("states", 1_112_064);
+                if let Compiled::Ok(re) = common::compile(pat, flags, xsd) {
+                    if let Out::Ok(left) = imp::with_fuel(400_000_000, || imp::replace_all(&re, &hay, "")) {
+                        out.add("validated", 1_112_064);
+                        if left != want {
+                            let first = left.chars().find(|c| !want.contains(*c)).map(|c| c.to_string()).unwrap_or_default();
+                            out.fail("C12", &Case::new("DOTALL", pat, flags).xsd(xsd).input(&first).api("replace_all"), "DotSet", &format!("{:?} left behind", want), &format!("{:?} left behind", left.chars().take(8).collect::<String>()), "the dot over all scalar values");
+                        }
+                    } else {
+                        out.inc("inconclusive_crash");
+                    }
+                }
+            }
             out.sample(J::obj(vec![("flag_strings_probed", J::i(n as usize))]));
             return;
         }
